@@ -11,6 +11,7 @@ length `depth`, NUL-free strings, LCP array as long as the string array).  Every
 quantifies over all inputs, depths, memory limits and `sizeof` constants.
 -/
 import TlxVerif.Proofs.C03Adapters
+import TlxVerif.Proofs.C03Partition
 namespace TlxVerif.C03
 
 variable {α : Type} (str : α → Str)
@@ -113,19 +114,43 @@ theorem border_loop_correct (s0 : Nat) (rest : List Nat) (d : Nat) (l : List Nat
 
 /-! ## multikey quicksort and the out-of-place 8-bit radix sort -/
 
-/-- C03/multikey_quicksort, for every input, depth and memory limit — relative to the partition
-property of the transliterated Bentley–Sedgewick loop -/
-theorem multikey_quicksort_correct_partial (hP : PartitionOk str) (c : Consts) (wl : Bool)
+/-- C03/multikey_quicksort partition: pivot selection, the four-cursor Bentley–Sedgewick loop and
+the two `vec_swap`s (array transliteration) lay the range out as `<pivot | =pivot | >pivot` -/
+theorem partition_correct (d : Nat) (ss : List α) (hn : 32 ≤ ss.length) :
+    PartOk str d ss (partition str d ss) :=
+  partition_ok str d ss hn
+
+/-- C03/multikey_quicksort (three-way partition, LCP stores at the two partition borders and in a
+finished equal range, recursion, insertion-sort and memory fall-backs): for every input, depth and
+memory limit -/
+theorem multikey_quicksort_correct (c : Consts) (wl : Bool)
     (d : Nat) (ss : List α) (l : List Nat) (mem : Nat) (h : Pre str wl d ss l) :
     SortSpec str wl ss l (multikeyQuicksort str c wl d ss l mem) :=
-  multikeyQuicksort_spec str hP c wl d ss l mem h
+  multikeyQuicksort_spec str (partitionOk str) c wl d ss l mem h
 
 /-- C03/radixsort_CE0 (count, prefix sum, stable distribution, recursion over the explicit stack,
 insertion-sort and memory-limit fall-backs), for every input, depth, memory limit and sizeof -/
-theorem radixsort_CE0_correct_partial (hP : PartitionOk str) (c : Consts) (wl : Bool)
+theorem radixsort_CE0_correct (c : Consts) (wl : Bool)
     (d : Nat) (ss : List α) (l : List Nat) (mem : Nat) (h : Pre str wl d ss l) :
     SortSpec str wl ss l (radixsortCE0 str c wl d ss l mem) :=
-  radixsortCE0_spec str c wl (multikeyQuicksort_spec str hP c wl) d ss l mem h
+  radixsortCE0_spec str c wl (multikeyQuicksort_spec str (partitionOk str) c wl) d ss l mem h
+
+/-- C03/radixsort_CE2_loop / radixsort_CE0_loop started on any range, level and memory value (this
+is what radixsort_CE3 calls for buckets below 65536 strings) -/
+theorem radix8_loop_correct (c : Consts) (wl : Bool) (step : Nat)
+    (d level : Nat) (ss : List α) (l : List Nat) (mem : Nat) (h : Pre str wl d ss l) :
+    SortSpec str wl ss l (ce8Loop str c wl step (radixFuel str ss) ss l d level mem) :=
+  ce8Loop_spec str c wl step (multikeyQuicksort_spec str (partitionOk str) c wl) _ ss l d level mem
+    (radixFuel_enough str ss d) h
+
+/-- C03/radixsort_CE3 when no memory limit forces the in-place fall-back: whenever the adapter
+chain does not reach radixsort_CI3, i.e. for `memory` large enough for the 8-bit shadow array (in
+particular the 16-bit loop itself, for every input and every memory value inside it) -/
+theorem radix16_loop_correct (c : Consts) (wl : Bool)
+    (d level : Nat) (ss : List α) (l : List Nat) (mem : Nat) (h : Pre str wl d ss l) :
+    SortSpec str wl ss l (ce3Loop str c wl (radixFuel str ss) ss l d level mem) :=
+  ce3Loop_spec str c wl (multikeyQuicksort_spec str (partitionOk str) c wl) _ ss l d level mem
+    (radixFuel_enough str ss d) h
 
 /-- C03/16-bit step: count, prefix sum, stable distribution by two bytes, LCP stores `depth` /
 `depth + 1` at the bucket borders, finished buckets `(c,0)`, recursion two characters deeper -/
@@ -145,54 +170,78 @@ theorem radix16_step (wl : Bool) (d : Nat) (ss : List α) (l : List Nat) (bsL : 
   step16_spec str wl d ss l bsL f hperm hne hkey hpre hf0 hfz hf
 
 /-- C03/radixsort_CE2 incl. its memory-limit fall-back chain CE2 → CI3 → CI2 → multikey quicksort -/
-theorem radixsort_CE2_correct_partial (hP : PartitionOk str) (hPerm : PermuteAllOk α) (c : Consts) (wl : Bool)
+theorem radixsort_CE2_correct_partial (hPerm : PermuteAllOk α) (c : Consts) (wl : Bool)
     (d : Nat) (ss : List α) (l : List Nat) (mem : Nat) (h : Pre str wl d ss l) :
     SortSpec str wl ss l (radixsortCE2 str c wl d ss l mem) :=
-  radixsortCE2_spec str c wl (multikeyQuicksort_spec str hP c wl) hPerm d ss l mem h
+  radixsortCE2_spec str c wl (multikeyQuicksort_spec str (partitionOk str) c wl) hPerm d ss l mem h
 
 /-- C03/radixsort_CE3 (16-bit steps switching to 8-bit steps below 65536 strings) -/
-theorem radixsort_CE3_correct_partial (hP : PartitionOk str) (hPerm : PermuteAllOk α) (c : Consts) (wl : Bool)
+theorem radixsort_CE3_correct_partial (hPerm : PermuteAllOk α) (c : Consts) (wl : Bool)
     (d : Nat) (ss : List α) (l : List Nat) (mem : Nat) (h : Pre str wl d ss l) :
     SortSpec str wl ss l (radixsortCE3 str c wl d ss l mem) :=
-  radixsortCE3_spec str c wl (multikeyQuicksort_spec str hP c wl) hPerm d ss l mem h
+  radixsortCE3_spec str c wl (multikeyQuicksort_spec str (partitionOk str) c wl) hPerm d ss l mem h
 
 /-- C03/radixsort_CI2 -/
-theorem radixsort_CI2_correct_partial (hP : PartitionOk str) (hPerm : PermuteAllOk α) (c : Consts) (wl : Bool)
+theorem radixsort_CI2_correct_partial (hPerm : PermuteAllOk α) (c : Consts) (wl : Bool)
     (d : Nat) (ss : List α) (l : List Nat) (mem : Nat) (h : Pre str wl d ss l) :
     SortSpec str wl ss l (radixsortCI2 str c wl d ss l mem) :=
-  radixsortCI2_spec str c wl (multikeyQuicksort_spec str hP c wl) hPerm d ss l mem h
+  radixsortCI2_spec str c wl (multikeyQuicksort_spec str (partitionOk str) c wl) hPerm d ss l mem h
 
 /-- C03/radixsort_CI3 -/
-theorem radixsort_CI3_correct_partial (hP : PartitionOk str) (hPerm : PermuteAllOk α) (c : Consts) (wl : Bool)
+theorem radixsort_CI3_correct_partial (hPerm : PermuteAllOk α) (c : Consts) (wl : Bool)
     (d : Nat) (ss : List α) (l : List Nat) (mem : Nat) (h : Pre str wl d ss l) :
     SortSpec str wl ss l (radixsortCI3 str c wl d ss l mem) :=
-  radixsortCI3_spec str c wl (multikeyQuicksort_spec str hP c wl) hPerm d ss l mem h
+  radixsortCI3_spec str c wl (multikeyQuicksort_spec str (partitionOk str) c wl) hPerm d ss l mem h
 
 /-- C03/sort_strings, sort_strings_lcp (every overload is radixsort_CE3 at depth 0): for every
 collection of NUL-free strings and every memory limit the result is a permutation of the objects
 in non-decreasing unsigned-byte order, and the LCP variant stores the exact LCPs -/
-theorem sort_strings_correct_partial (hP : PartitionOk str) (hPerm : PermuteAllOk α) (c : Consts) (wl : Bool)
+theorem sort_strings_correct_partial (hPerm : PermuteAllOk α) (c : Consts) (wl : Bool)
     (ss : List α) (l : List Nat) (mem : Nat) (hn : NulFree str ss) (hl : wl = true → l.length = ss.length) :
     SortSpec str wl ss l (sortStrings str c wl ss l mem) :=
-  radixsortCE3_spec str c wl (multikeyQuicksort_spec str hP c wl) hPerm 0 ss l mem
+  radixsortCE3_spec str c wl (multikeyQuicksort_spec str (partitionOk str) c wl) hPerm 0 ss l mem
     ⟨fun _ _ _ _ => Nat.zero_le _, hn, hl⟩
 
-/-- the two facts about array loops that the theorems above are relative to -/
-def partition_statement : Prop := ∀ (α : Type) (str : α → Str), PartitionOk str
--- OPEN: partition_statement — the array transliteration of pivot selection + four-cursor Bentley–Sedgewick loop + two vec_swaps (`partition`) yields `<pivot | =pivot | >pivot` with the range sizes read off the cursors; not proved, validated only by the exact-order correspondence
+/-- C03/sort_strings, sort_strings_lcp **without the in-place fall-back**: for every collection
+of NUL-free strings and every memory limit that is 0 (the default argument) or large enough for
+the out-of-place 8-bit radix sort, the result is a permutation of the objects in non-decreasing
+unsigned-byte order and the LCP variant stores the exact LCPs — no open hypothesis -/
+theorem sort_strings_correct_out_of_place (c : Consts) (wl : Bool)
+    (ss : List α) (l : List Nat) (mem : Nat) (hmem : NoInPlaceFallback c ss.length mem)
+    (hn : NulFree str ss) (hl : wl = true → l.length = ss.length) :
+    SortSpec str wl ss l (sortStrings str c wl ss l mem) :=
+  radixsortCE3_spec_out str c wl (multikeyQuicksort_spec str (partitionOk str) c wl) 0 ss l mem hmem
+    ⟨fun _ _ _ _ => Nat.zero_le _, hn, hl⟩
 
+/-- the default call `sort_strings(strings, n)` / `sort_strings_lcp(strings, n, lcp)` (memory = 0) -/
+theorem sort_strings_correct_default (c : Consts) (wl : Bool)
+    (ss : List α) (l : List Nat) (hn : NulFree str ss) (hl : wl = true → l.length = ss.length) :
+    SortSpec str wl ss l (sortStrings str c wl ss l 0) :=
+  sort_strings_correct_out_of_place str c wl ss l 0 (by simp [NoInPlaceFallback]) hn hl
+
+/-- the detail entry points radixsort_CE2 / radixsort_CE3 under the same condition, any depth -/
+theorem radixsort_CE3_correct_out_of_place (c : Consts) (wl : Bool)
+    (d : Nat) (ss : List α) (l : List Nat) (mem : Nat) (hmem : NoInPlaceFallback c ss.length mem)
+    (h : Pre str wl d ss l) : SortSpec str wl ss l (radixsortCE3 str c wl d ss l mem) :=
+  radixsortCE3_spec_out str c wl (multikeyQuicksort_spec str (partitionOk str) c wl) d ss l mem hmem h
+
+theorem radixsort_CE2_correct_out_of_place (c : Consts) (wl : Bool)
+    (d : Nat) (ss : List α) (l : List Nat) (mem : Nat) (hmem : NoInPlaceFallback c ss.length mem)
+    (h : Pre str wl d ss l) : SortSpec str wl ss l (radixsortCE2 str c wl d ss l mem) :=
+  radixsortCE2_spec_out str c wl (multikeyQuicksort_spec str (partitionOk str) c wl) d ss l mem hmem h
+
+/-- the fact about an array loop that the theorems for CE2/CE3/CI2/CI3/sort_strings are relative to -/
 def permute_statement : Prop := ∀ (α : Type), PermuteAllOk α
--- OPEN: permute_statement — the in-place cycle-leader permutation of RadixStep_CI2/CI3 (`permuteInPlace`) yields a permutation cut into buckets by key; not proved (DESIGN §6 C03 Gap), validated only by the exact-order correspondence
+-- OPEN: permute_statement — the in-place cycle-leader permutation of RadixStep_CI2/CI3 (`permuteInPlace`: counting, inclusive prefix sum, cycle-leader loop) yields a permutation cut into buckets by key; not proved (DESIGN §6 C03 Gap), tied to the code only by the exact-order correspondence.  It is reached from sort_strings only through the memory-limit fall-back radixsort_CE2 -> radixsort_CI3.
 
 /-- the property at full strength -/
 def sort_strings_correct_statement : Prop :=
   ∀ (α : Type) (str : α → Str) (c : Consts) (wl : Bool) (ss : List α) (l : List Nat) (mem : Nat),
     NulFree str ss → (wl = true → l.length = ss.length) → SortSpec str wl ss l (sortStrings str c wl ss l mem)
--- OPEN: sort_strings_correct_statement — follows from sort_strings_correct_partial once partition_statement and permute_statement are proved (the same holds for every detail entry point: multikey_quicksort, radixsort_CE0/CE2/CE3/CI2/CI3)
+-- OPEN: sort_strings_correct_statement — follows from sort_strings_correct_partial once permute_statement is proved (likewise radixsort_CE2/CE3/CI2/CI3 at every depth); insertion_sort, multikey_quicksort, radixsort_CE0 and the 8-bit/16-bit out-of-place loops are proved outright
 
-theorem sort_strings_correct_of (h1 : partition_statement) (h2 : permute_statement) :
-    sort_strings_correct_statement :=
-  fun α str c wl ss l mem hn hl => sort_strings_correct_partial str (h1 α str) (h2 α) c wl ss l mem hn hl
+theorem sort_strings_correct_of (h2 : permute_statement) : sort_strings_correct_statement :=
+  fun α str c wl ss l mem hn hl => sort_strings_correct_partial str (h2 α) c wl ss l mem hn hl
 
 /-! ## non-vacuity -/
 
